@@ -15,7 +15,7 @@ variable {α : Type} [Arith α]
 theorem checkNoteTimer_noop (s : BP α) (h : ∀ t, s.toks[s.cur]? = some t → t.kind ≠ .openParen) :
     checkNoteTimer s = ((), s) := by
   unfold checkNoteTimer
-  rw [P_bind_run, withRecover_run, P_bind_run, consumeK_run]
+  rw [P_bind_run, withRecover_run_ext, P_bind_run, consumeK_run]
   cases ht : s.toks[s.cur]? with
   | none => rfl
   | some t =>
@@ -82,7 +82,7 @@ theorem timerP_noQuantity (s : BP α) (t : Tok) (ht : s.toks[s.cur]? = some t) (
 /-! ### the short form `~name` -/
 
 /-- no long form ahead: `comp_body`'s first attempt returns `None` and restores the cursor -/
-theorem compBodyLong_none (s : BP α) (h : longBody s.rest = none) : compBodyLong s = (none, s) := by
+theorem compBodyLong_none_ext (s : BP α) (h : longBody s.rest = none) : compBodyLong s = (none, s) := by
   have h1 := compBodyLong_fst s
   rw [h] at h1
   have hn : (compBodyLong s).1 = none := by
@@ -91,7 +91,7 @@ theorem compBodyLong_none (s : BP α) (h : longBody s.rest = none) : compBodyLon
     | some b => rw [hc] at h1; cases h1
   unfold compBodyLong at hn ⊢
   rw [withRecover_fst] at hn
-  rw [withRecover_run, hn]
+  rw [withRecover_run_ext, hn]
   simp only [Option.isNone_none, if_true]
   congr 1
   revert hn
@@ -141,15 +141,15 @@ theorem consumeWhile_takeWhile (f : TK → Bool) (s : BP α) :
   rw [← h1, List.length_take, Nat.min_eq_left hle]
 
 /-- … and the second attempt returns the run of word/number tokens -/
-theorem compBody_short (s : BP α) (h : longBody s.rest = none)
+theorem compBody_short_ext (s : BP α) (h : longBody s.rest = none)
     (hne : s.rest.takeWhile (fun t => isShortTok t.kind) ≠ []) :
     compBody s = (some ⟨s.rest.takeWhile (fun t => isShortTok t.kind), none, none⟩,
       { s with cur := s.cur + (s.rest.takeWhile (fun t => isShortTok t.kind)).length }) := by
   unfold compBody
-  rw [P_bind_run, compBodyLong_none s h]
+  rw [P_bind_run, compBodyLong_none_ext s h]
   dsimp only
   unfold compBodyShort
-  rw [withRecover_run, P_bind_run, consumeWhile_takeWhile]
+  rw [withRecover_run_ext, P_bind_run, consumeWhile_takeWhile]
   dsimp only
   have he : (s.rest.takeWhile (fun t => t.kind == .word || t.kind == .int || t.kind == .zeroInt)).isEmpty = false := by
     cases hx : s.rest.takeWhile (fun t => t.kind == .word || t.kind == .int || t.kind == .zeroInt) with
@@ -206,7 +206,7 @@ theorem timerP_short (s : BP α) (t : Tok) (ht : s.toks[s.cur]? = some t) (hk : 
         unfold shortName
         rw [hd, List.takeWhile_cons]
         simp only [hp, Bool.false_eq_true, if_false]
-  · exact compBody_short ({ s with cur := s.cur + 1 } : BP α) hl hne
+  · exact compBody_short_ext ({ s with cur := s.cur + 1 } : BP α) hl hne
   · rw [List.any_eq_false]
     intro x hx
     have := isShortTok_not_or (hall x hx)
